@@ -1,6 +1,7 @@
-import WebAuthnModel.Model.Jws
+import WebAuthnModel.Model.JwsVerify
 import WebAuthnModel.Generated.TpmAndroid
 import WebAuthnModel.Proofs.Base64
+import WebAuthnModel.Proofs.BytesLemmas
 /-
   The compact-JWS model (Model/Jws.lean, go-jose v3.0.3 `jose.ParseSigned` as the android-safetynet verifier uses it), taken on its own:
 
@@ -270,6 +271,96 @@ theorem claims_example :
     claims (Bytes.ofString "{\"nonce\":\"AQID\",\"timestampMs\":\"1\"}") = none ∧
     claims (Bytes.ofString "{\"nonce\":\"AQI\"}") = none := by
   refine ⟨?_, ?_, ?_, ?_, ?_⟩ <;> decide +kernel
+
+/-! ### which primitive checks the signature (Model/JwsVerify.lean: go-jose's `newVerifier` + `verifyPayload`) -/
+
+/-- RSA keys: RS256/384/512 are RSASSA-PKCS1-v1_5 and PS256/384/512 RSASSA-PSS, with SHA-256/384/512, over the signature bytes as they are;
+    every other algorithm name is refused -/
+theorem verifyPlan_rsa (n : Bytes) (e : Nat) (alg sig : Bytes) :
+    verifyPlan alg (.rsa n e) sig =
+      if alg = str "RS256" then .primitive .pkcs1 5 sig else if alg = str "RS384" then .primitive .pkcs1 6 sig
+      else if alg = str "RS512" then .primitive .pkcs1 7 sig else if alg = str "PS256" then .primitive .pss 5 sig
+      else if alg = str "PS384" then .primitive .pss 6 sig else if alg = str "PS512" then .primitive .pss 7 sig else .reject := by
+  rfl
+
+/-- EC keys (whatever their curve): ES256/384/512 want exactly 64 / 96 / 132 bytes r ‖ s and use SHA-256/384/512; everything else is refused -/
+theorem verifyPlan_ec (crv : Nat) (x y alg sig : Bytes) :
+    verifyPlan alg (.ec crv x y) sig =
+      if alg = str "ES256" then (if sig.length = 64 then .primitive .ecdsa 5 (derOfRS (sig.take 32) (sig.drop 32)) else .reject)
+      else if alg = str "ES384" then (if sig.length = 96 then .primitive .ecdsa 6 (derOfRS (sig.take 48) (sig.drop 48)) else .reject)
+      else if alg = str "ES512" then (if sig.length = 132 then .primitive .ecdsa 7 (derOfRS (sig.take 66) (sig.drop 66)) else .reject)
+      else .reject := by
+  simp only [verifyPlan, ecPlan, ecPlanFor, hSHA256, hSHA384, hSHA512]
+
+theorem verifyPlan_ed (k alg sig : Bytes) :
+    verifyPlan alg (.ed k) sig = if alg = str "EdDSA" then .primitive .eddsa 0 sig else .reject := by
+  rfl
+
+/-- a token without an algorithm the key kind supports is never accepted: in particular "none", "HS256" and the empty name -/
+theorem verifyPlan_no_alg (key : KeyMat) (sig : Bytes) (hk : key ≠ .other) :
+    verifyPlan (str "none") key sig = .reject ∧ verifyPlan (str "HS256") key sig = .reject ∧ verifyPlan [] key sig = .reject := by
+  have e1 : str "none" ≠ str "RS256" ∧ str "none" ≠ str "RS384" ∧ str "none" ≠ str "RS512" ∧ str "none" ≠ str "PS256" ∧
+      str "none" ≠ str "PS384" ∧ str "none" ≠ str "PS512" ∧ str "none" ≠ str "ES256" ∧ str "none" ≠ str "ES384" ∧
+      str "none" ≠ str "ES512" ∧ str "none" ≠ str "EdDSA" := by decide +kernel
+  have e2 : str "HS256" ≠ str "RS256" ∧ str "HS256" ≠ str "RS384" ∧ str "HS256" ≠ str "RS512" ∧ str "HS256" ≠ str "PS256" ∧
+      str "HS256" ≠ str "PS384" ∧ str "HS256" ≠ str "PS512" ∧ str "HS256" ≠ str "ES256" ∧ str "HS256" ≠ str "ES384" ∧
+      str "HS256" ≠ str "ES512" ∧ str "HS256" ≠ str "EdDSA" := by decide +kernel
+  have e3 : ([] : Bytes) ≠ str "RS256" ∧ ([] : Bytes) ≠ str "RS384" ∧ ([] : Bytes) ≠ str "RS512" ∧ ([] : Bytes) ≠ str "PS256" ∧
+      ([] : Bytes) ≠ str "PS384" ∧ ([] : Bytes) ≠ str "PS512" ∧ ([] : Bytes) ≠ str "ES256" ∧ ([] : Bytes) ≠ str "ES384" ∧
+      ([] : Bytes) ≠ str "ES512" ∧ ([] : Bytes) ≠ str "EdDSA" := by decide +kernel
+  obtain ⟨a1, a2, a3, a4, a5, a6, a7, a8, a9, a10⟩ := e1
+  obtain ⟨b1, b2, b3, b4, b5, b6, b7, b8, b9, b10⟩ := e2
+  obtain ⟨c1, c2, c3, c4, c5, c6, c7, c8, c9, c10⟩ := e3
+  cases key with
+  | rsa n e => simp only [verifyPlan, rsaPlan, if_neg a1, if_neg a2, if_neg a3, if_neg a4, if_neg a5, if_neg a6,
+      if_neg b1, if_neg b2, if_neg b3, if_neg b4, if_neg b5, if_neg b6, if_neg c1, if_neg c2, if_neg c3, if_neg c4, if_neg c5, if_neg c6, and_self]
+  | ec crv x y => simp only [verifyPlan, ecPlan, if_neg a7, if_neg a8, if_neg a9, if_neg b7, if_neg b8, if_neg b9,
+      if_neg c7, if_neg c8, if_neg c9, and_self]
+  | ed k => simp only [verifyPlan, if_neg a10, if_neg b10, if_neg c10, and_self]
+  | other => exact absurd rfl hk
+
+/-- the DER INTEGER contents written for r and s denote the same number and are minimal and non-negative -/
+theorem derMagnitude_value (b : Bytes) : Bytes.beNat (derMagnitude b) = Bytes.beNat b := by
+  have hd : ∀ l : Bytes, Bytes.beNat (l.dropWhile (· = 0)) = Bytes.beNat l := by
+    intro l
+    induction l with
+    | nil => rfl
+    | cons x xs ih =>
+      by_cases hx : x = 0
+      · subst hx
+        rw [List.dropWhile_cons_of_pos (by simp), ih, Bytes.beNat_cons]
+        simp
+      · rw [List.dropWhile_cons_of_neg (by simpa using hx)]
+  rw [← hd b]
+  unfold derMagnitude
+  split
+  · next h => rw [h]; rfl
+  · next x rest h =>
+    rw [h]
+    split
+    · rw [Bytes.beNat_cons]; simp
+    · rfl
+
+theorem derMagnitude_minimal (b : Bytes) :
+    ∃ x rest, derMagnitude b = x :: rest ∧ x.toNat < 128 ∧ (x = 0 → rest = [] ∨ ∃ y r, rest = y :: r ∧ y.toNat ≥ 128) := by
+  unfold derMagnitude
+  split
+  · exact ⟨0, [], rfl, by decide, fun _ => Or.inl rfl⟩
+  · next x rest h =>
+    have hx : x ≠ 0 := by
+      intro h0
+      have := List.head_dropWhile_not (p := fun y : UInt8 => decide (y = 0)) (l := b) (by rw [h]; simp)
+      simp [h, h0] at this
+    by_cases hge : x.toNat ≥ 128
+    · rw [if_pos hge]
+      exact ⟨0, x :: rest, rfl, by decide, fun _ => Or.inr ⟨x, rest, rfl, hge⟩⟩
+    · rw [if_neg hge]
+      exact ⟨x, rest, rfl, by omega, fun h0 => absurd h0 hx⟩
+
+theorem derOfRS_example :
+    derOfRS [0, 0, 1] [0x80] = [0x30, 0x07, 0x02, 0x01, 0x01, 0x02, 0x02, 0x00, 0x80] ∧ derOfRS [] [0] = [0x30, 0x06, 0x02, 0x01, 0x00, 0x02, 0x01, 0x00] := by
+  constructor <;> decide +kernel
+
 
 /-- the SafetyNet claims structure `Model/Jws.lean` `claims` transcribes, regenerated from `android/safetynet.go` on every run:
     field, Go type, json member name -/
